@@ -244,21 +244,17 @@ Fixpoint stack_loop (nodes : list cnode) : list lint :=
   end.
 Definition lint_stack (g : cfg) : list lint := stack_loop (gnodes g).
 
-(* CalleeSavedRegisterCheck: once per entry of the label->function map (so a function with two
-   labels is visited twice), in hash order *)
+(* CalleeSavedRegisterCheck: once per function, in program order (fix "check callee-saved registers once
+   per function"; before, once per entry of the label->function map, in hash order) *)
 Definition lint_callee_saved (g : cfg) : list lint :=
-  flat_map (fun lf =>
-    match nth_opt (gfuncs g) (snd lf) with
-    | Some f =>
+  flat_map (fun f =>
         match getn (gnodes g) (fexit f) with
         | Some e =>
             flat_map (fun r => if is_original_value (rin e) r then []
                                else map (lint1 LOverwriteCalleeSavedRegister) (error_ranges_for_first_store (gnodes g) (fexit f) r))
                      (rs_elems callee_saved_set)
         | None => []
-        end
-    | None => []
-    end) (glabelfn g).
+        end) (gfuncs g).
 
 Definition lint_callee_saved_garbage_read (g : cfg) : list lint :=
   for_nodes g (fun _ c =>
